@@ -834,9 +834,30 @@ func (s *DB) getHistoricRootsAndNodes(
 	for k := range candidateBlocks {
 		nodes = append(nodes, k)
 	}
+	// Oldest first. The version objects are deleted in this order, and the
+	// next vacuum finds the history by walking back from the current version:
+	// were a version deleted before the ones it supersedes, an interruption
+	// would leave those listed, with their nodes gone, out of every later
+	// vacuum's reach.
 	roots = make([]string, 0, len(candidateRoots))
+	ordered := make(map[string]bool, len(candidateRoots))
+	var supersededFirst func(name string)
+	supersededFirst = func(name string) {
+		if ordered[name] {
+			return
+		}
+		ordered[name] = true
+		if root, ok := rootCacheByName[name]; ok {
+			for _, parent := range root.MergeSources {
+				if _, ok := candidateRoots[parent]; ok {
+					supersededFirst(parent)
+				}
+			}
+		}
+		roots = append(roots, name)
+	}
 	for k := range candidateRoots {
-		roots = append(roots, k)
+		supersededFirst(k)
 	}
 	return roots, nodes, nil
 }
